@@ -60,6 +60,18 @@ def run(rep, tier):
                 except Inconclusive as ex:
                     rep.inconclusive("R-C07-nullstore", site(f), str(ex), "%s | %s" % (db.label, f["full"][:150]))
     rep.require(n_null >= 2, "only %d nullptr stores analysed (floor 2)" % n_null)
+    rep.rule("R-C07-route", "every pointer (and array-of-pointers) instantiation of convert_type_non_class encodes each element exactly once: the element loop runs i = 0 .. N-1 over the array extent, not over a "
+             "byte-size quotient that differs between guest and host pointer widths (shared analysis with C04's R-C04-route; seed C07-h)")
+    n_route = 0
+    for db in dbs:
+        for f in db.functions:
+            if not f["dep"] and "body" in f and f["n"] == "rlbox::detail::convert_type_non_class":
+                try:
+                    if _c04.check_route(RuleView(rep, {"R-C04-route": "R-C07-route"}), db, f, "%s | %s" % (db.label, f["full"][:150])):
+                        n_route += 1
+                except Inconclusive as ex:
+                    rep.inconclusive("R-C07-route", site(f), str(ex), "%s | %s" % (db.label, f["full"][:150]))
+    rep.require(n_route >= 4, "only %d pointer conversions analysed (floor 4)" % n_route)
     for db in dbs:
         rep.units.append(db.label)
         for name in ("rlbox::tainted_base_impl::copy_and_verify_range", "rlbox::tainted_base_impl::copy_and_verify_buffer_address", "rlbox::tainted_base_impl::unverified_safe_pointer_because"):
